@@ -235,6 +235,31 @@ fn metadata_cases(out: &mut Vec<Case>) {
     }
 }
 
+/// Default options with inputs that cross the size thresholds of the defaults and of the layers
+/// below: blocks that stay above 2 MiB after compression, a file just above the 20 MiB block
+/// size, files around the 1 MiB small-file threshold.
+fn large_cases(out: &mut Vec<Case>) {
+    out.push(Case {
+        tag: "large: incompressible files of 3 MiB and 2 MiB+4097, default options".into(),
+        opts: BOpts::defaults(),
+        sweep: "large",
+        tree: Box::new(crate::common::tree_big),
+    });
+    out.push(Case {
+        tag: "large: 20 MiB + 5 file, and files of 1 MiB - 1, 1 MiB, 1 MiB + 1, default options".into(),
+        opts: BOpts::defaults(),
+        sweep: "large",
+        tree: Box::new(|| {
+            let mut t = empty_tree();
+            t.insert("over-a-block".into(), Node::file(&content(0, (20 << 20) + 5, 0, 1), T0 + 70));
+            for (i, sz) in [(1usize << 20) - 1, 1 << 20, (1 << 20) + 1].iter().enumerate() {
+                t.insert(format!("cap{i}"), Node::file(&crate::common::incompressible(*sz, 10 + i as u64), T0 + 71 + i as i64));
+            }
+            t
+        }),
+    });
+}
+
 /// More than 10 000 index hunks, so that hunk sub-directory i/00001 is used.
 fn rollover_case(out: &mut Vec<Case>) {
     out.push(Case {
@@ -263,6 +288,7 @@ pub fn cases(thorough: bool) -> Vec<Case> {
     let mut v = Vec::new();
     metadata_cases(&mut v);
     rollover_case(&mut v);
+    large_cases(&mut v);
     structure_cases(if thorough { 4 } else { 3 }, &mut v);
     layout_cases(if thorough { 3 } else { 2 }, &mut v);
     if thorough {
@@ -366,7 +392,7 @@ pub fn for_each_case(
         let _g = announce(w, || format!("{label} {}", c.tag));
         let t = (c.tree)();
         for v in f(c, &t, &scratches[w]) {
-            let tj = if t.len() <= 40 { tree::tree_to_json(&t) } else { json!(null) };
+            let tj = if t.len() <= 40 && c.sweep != "large" { tree::tree_to_json(&t) } else { json!(null) };
             report.violation(&v, &json!({"kind": "c01", "check": label, "tag": c.tag, "tree": tj, "opts": c.opts.to_json(), "sweep": c.sweep}));
         }
         n.fetch_add(1, AO::Relaxed);
@@ -408,6 +434,7 @@ pub fn replay(case: &Value) -> Vec<Violation> {
         "mtimes" => "mtimes",
         "names" => "names",
         "rollover" => "rollover",
+        "large" => "large",
         _ => "owners",
     };
     let t = match tree::tree_from_json(&case["tree"]) {
